@@ -448,6 +448,8 @@ struct Ctx {
     fds: Option<Arc<lsm_tree::DescriptorTable>>,
     ingest_nonce: u64,
     weak_used: bool,
+    /// totals of every blob file ever seen in a published version: id -> (items, uncompressed bytes, on-disk bytes)
+    blob_totals: std::cell::RefCell<BTreeMap<u64, (usize, u64, u64)>>,
 }
 
 fn open_tree(c: &Ctx0) -> AnyTree {
@@ -493,7 +495,7 @@ struct Ctx0<'a> {
     once: Arc<Vec<K>>,
 }
 
-fn index_tree(t: &AnyTree) -> &Tree {
+pub fn index_tree(t: &AnyTree) -> &Tree {
     match t {
         AnyTree::Standard(t) => t,
         AnyTree::Blob(b) => &b.index,
@@ -506,7 +508,12 @@ fn table_entries(t: &lsm_tree::Table) -> Vec<Ent> {
 
 /// canonical state text — must equal `Driver.Tree.showState` of the model
 fn canon_state(c: &Ctx) -> String {
-    let tree = index_tree(&c.tree);
+    canon_state_raw(&c.tree, c.dir.path(), c.seqno.get(), c.vis.get())
+}
+
+/// canonical state text of a tree (shared with the controlled-schedule instrument)
+pub fn canon_state_raw(anytree: &AnyTree, dir: &std::path::Path, ctr: u64, vis: u64) -> String {
+    let tree = index_tree(anytree);
     let hist = va::dump_history(tree);
     let hs = hist
         .iter()
@@ -529,7 +536,7 @@ fn canon_state(c: &Ctx) -> String {
     }
     mems.push(format!("{}{{{}}}", sv.active_memtable.id(), show_ents(&sv.active_memtable.iter().map(|v| Ent::of_internal(&v)).collect::<Vec<_>>())));
     let v = va::version_of(&sv);
-    let blobs_folder = c.dir.path().join("blobs");
+    let blobs_folder = dir.join("blobs");
     let tabs = v
         .iter_tables()
         .map(|t| {
@@ -552,10 +559,10 @@ fn canon_state(c: &Ctx) -> String {
         })
         .collect::<Vec<_>>()
         .join("+");
-    format!("ctr={} vis={} hist={} mems={} tables={}", c.seqno.get(), c.vis.get(), hs, mems.join("+"), tabs)
+    format!("ctr={} vis={} hist={} mems={} tables={}", ctr, vis, hs, mems.join("+"), tabs)
 }
 
-fn digest_of(s: &str) -> String {
+pub fn digest_of(s: &str) -> String {
     fnv(s.as_bytes()).to_string()
 }
 
@@ -797,6 +804,32 @@ fn audit(c: &Ctx, tag: &str, fails: &mut Vec<String>) {
             }
         }
     }
+    // C20: files on disk vs files named by the history (quiescent moment: no iterator or compaction is alive)
+    {
+        let hist = va::dump_history(tree);
+        let mut named_tables: BTreeSet<u64> = BTreeSet::new();
+        let mut named_blobs: BTreeSet<u64> = BTreeSet::new();
+        let mut named_versions: BTreeSet<u64> = BTreeSet::new();
+        for h in &hist {
+            named_tables.extend(h.table_ids.iter().flatten().flatten().copied());
+            named_blobs.extend(h.blob_file_ids.iter().copied());
+            named_versions.insert(h.version_id);
+        }
+        let list = |sub: &str| -> BTreeSet<String> {
+            std::fs::read_dir(c.dir.path().join(sub)).map(|rd| rd.flatten().filter(|e| e.path().is_file()).map(|e| e.file_name().to_string_lossy().to_string()).collect()).unwrap_or_default()
+        };
+        let on_disk_tables: BTreeSet<u64> = list("tables").iter().filter_map(|n| n.parse().ok()).collect();
+        let on_disk_blobs: BTreeSet<u64> = list("blobs").iter().filter_map(|n| n.parse().ok()).collect();
+        let on_disk_versions: BTreeSet<u64> = list("").iter().filter_map(|n| n.strip_prefix('v').and_then(|x| x.parse().ok())).collect();
+        for (what, named, disk) in [("table", &named_tables, &on_disk_tables), ("blob file", &named_blobs, &on_disk_blobs), ("version file", &named_versions, &on_disk_versions)] {
+            for id in named.difference(disk) {
+                fails.push(format!("C20 after `{tag}`: {what} {id} is named by a live history entry but is not on disk"));
+            }
+            for id in disk.difference(named) {
+                fails.push(format!("C20 after `{tag}`: {what} {id} is on disk but no live history entry names it (not reclaimed)"));
+            }
+        }
+    }
     // C18
     if c.tree.get_highest_persisted_seqno() != max_seq {
         fails.push(format!("C18 after `{tag}`: get_highest_persisted_seqno {:?} vs stored {:?}", c.tree.get_highest_persisted_seqno(), max_seq));
@@ -867,6 +900,7 @@ fn blob_audit(c: &Ctx, tag: &str, fails: &mut Vec<String>, counters: &mut BTreeM
                 fails.push(format!("C09 after `{tag}`: blob file {id} cannot be scanned"));
                 continue;
             };
+            c.blob_totals.borrow_mut().insert(*id, (blobs.len(), blobs.iter().map(|b| u64::from(b.3)).sum(), blobs.iter().map(|b| u64::from(b.4)).sum()));
             let (mut gl, mut gb, mut gd) = (0usize, 0u64, 0u64);
             for (_k, _s, off, ulen, dlen) in &blobs {
                 if !referenced.contains(&(*id, *off)) {
@@ -882,6 +916,19 @@ fn blob_audit(c: &Ctx, tag: &str, fails: &mut Vec<String>, counters: &mut BTreeM
             }
             if rec != (gl, gb, gd) {
                 fails.push(format!("C09 after `{tag}`: blob file {id}: recorded garbage (len, bytes, on_disk) = {rec:?}, actual unreferenced blobs = {:?}", (gl, gb, gd)));
+            }
+        }
+        // an entry kept for a blob file that has LEFT the version must account for the whole file (the file left because
+        // every blob in it was unreferenced); anything else is garbage attributed to a file that does not exist
+        let present: BTreeSet<u64> = files.iter().map(|f| f.0).collect();
+        for (id, rec) in &stats {
+            if present.contains(id) {
+                continue;
+            }
+            match c.blob_totals.borrow().get(id) {
+                Some(tot) if tot == rec => {}
+                Some(tot) => fails.push(format!("C09 after `{tag}`: gc stats keep {rec:?} for blob file {id}, which is no longer part of the version and held {tot:?} in total")),
+                None => fails.push(format!("C09 after `{tag}`: gc stats keep {rec:?} for blob file {id}, which never was part of a published version")),
             }
         }
         let sum: u64 = stats.values().map(|x| x.2).sum();
@@ -936,6 +983,7 @@ fn run_case_inner(case: &Case, runner: &mut Runner) -> Outcome {
         fds,
         ingest_nonce: 0,
         weak_used: false,
+        blob_totals: std::cell::RefCell::new(BTreeMap::new()),
     };
     let mut out = Outcome { disagreement: None, oracle_failures: vec![], steps: 0, counters: BTreeMap::new(), nontrivial: false };
     let filter_arg = cfg.filter_seed.map_or("none".to_string(), |s| s.to_string());
@@ -1617,7 +1665,12 @@ pub fn campaign(profile: Profile, blob_mode: u8, seed: u64, cases: u64, max_ops:
                     let o = run_case(&case, &mut runner);
                     let failed = o.disagreement.is_some() || !o.oracle_failures.is_empty();
                     let mut g = results.lock().unwrap();
-                    if failed && g.iter().filter(|r| r.2.disagreement.is_some() || !r.2.oracle_failures.is_empty()).count() >= 3 {
+                    // a model/implementation disagreement alone does not end the search: keep looking for an input on
+                    // which the property oracle itself fails on the real tree
+                    if failed && g.iter().filter(|r| !r.2.oracle_failures.is_empty()).count() >= 3 {
+                        stop.store(true, std::sync::atomic::Ordering::SeqCst);
+                    }
+                    if failed && g.iter().filter(|r| r.2.disagreement.is_some()).count() >= 200 {
                         stop.store(true, std::sync::atomic::Ordering::SeqCst);
                     }
                     g.push((i, case, o));
@@ -1629,6 +1682,7 @@ pub fn campaign(profile: Profile, blob_mode: u8, seed: u64, cases: u64, max_ops:
     results.sort_by_key(|r| r.0);
     std::fs::create_dir_all(replay_dir).ok();
     let mut shrunk = 0;
+    let mut n_dis = 0;
     for (i, case, o) in results {
         st.evaluations += 1;
         for (k, v) in &o.counters {
@@ -1646,8 +1700,16 @@ pub fn campaign(profile: Profile, blob_mode: u8, seed: u64, cases: u64, max_ops:
             }
             continue;
         }
-        // shrink the first few failures and write replays
-        let (small, so) = if shrunk < 2 {
+        // shrink the first few failures and write replays (oracle failures first)
+        let is_oracle = !o.oracle_failures.is_empty();
+        if !is_oracle {
+            n_dis += 1;
+            if n_dis > 3 {
+                st.count("ib.more_disagreements_not_listed");
+                continue;
+            }
+        }
+        let (small, so) = if shrunk < 2 || (is_oracle && shrunk < 4) {
             shrunk += 1;
             let s = shrink(&case, with_model);
             let mut d = if with_model { Some(Drv::spawn()) } else { None };
